@@ -104,6 +104,34 @@ CLAIMED = {
    ref="DESIGN.md §8 C11, §7 M2",
    note="Lean kernel + standard axioms; kernel TCP / epoll semantics assumed",
    technique="Lean 4 proof (induction over read/write schedules and poll events) + differential correspondence on real connections"),
+ "C05": dict(
+   text="Lean 4 theorems over a small-step model of the two dispatch threads of node.rs (network thread, signal thread, "
+        "caller; every line touching the callback mutex, the running flag or the cache is one step; all three listener "
+        "modes): in every reachable state at most one thread is inside the callback, being inside implies owning the lock, "
+        "entering requires the lock to be free. Tie: stress runs on real threads with an inside-flag in the callback "
+        "(overlap counter) in all three modes, compared with the model played on a fair schedule.",
+   ref="DESIGN.md §8 C05, §7 M4",
+   note="Lean kernel + standard axioms; std::sync::Mutex provides mutual exclusion (assumed); the unsafe Send wrapper is sound exactly because of the proved invariant; memory model not modelled",
+   technique="Lean 4 proof (inductive invariant over all interleavings of the thread model) + schedule-sampling correspondence on real threads"),
+ "C09": dict(
+   text="Lean 4 theorems over the node thread model: after a stop() issued inside the callback no invocation is ever entered "
+        "again (history invariant over every schedule, all modes, including the replay of cached events and a thread waiting "
+        "for the callback lock), stop() before the listener call means no invocation at all, running never returns to true, "
+        "and both dispatch threads terminate within a bounded number of their own steps after the stop (decreasing measure). "
+        "Tie: stop scenarios on real threads (before start, inside the i-th network / signal callback, with a contended lock, "
+        "during replay, from outside) counting invocations entered after the stop and timing the listener's return.",
+   ref="DESIGN.md §8 C09, §7 M4",
+   note="Lean kernel + standard axioms; bounded time = bounded steps x SAMPLING_TIMEOUT (the timeout itself is the OS's); Mutex acquire/release ordering makes the Relaxed flag visible (assumed)",
+   technique="Lean 4 proof (history invariant + termination measure over all interleavings) + schedule-sampling correspondence on real threads"),
+ "C15": dict(
+   text="Lean 4 theorems over the node thread model with events numbered in production order: in every reachable state the "
+        "network events handed to the callback are exactly 0..k-1 in order (no loss, duplication or reordering across the "
+        "cache hand-over, any cache size, any mode, any schedule), cached before live, and the pipeline (held + cache + "
+        "polled) is contiguous and complete while the node runs. Tie: real peers act before the listener call with delays "
+        "0-300 ms; the callback's event sequence must equal the peers' action sequence.",
+   ref="DESIGN.md §8 C15, §7 M4",
+   note="Lean kernel + standard axioms; the per-endpoint guarantees of the cached events are C03 composed with this (theorem lifecycle_wellformed_through_node)",
+   technique="Lean 4 proof (inductive invariant over all interleavings of the thread model) + trace correspondence on real connections"),
  "C13": dict(
    text="Lean 4 theorems: the status table of send (NotFound iff unregistered, NotAvailable iff registered and not ready "
         "with the adapter not invoked, else the adapter's status), send never touches the connection state, the Ws and Udp "
